@@ -640,7 +640,58 @@ def cli_passthrough_lemma(repo):
     return {'results': res, 'sha': {}}
 
 
+NORM_PROBE = r'''
+import sys, json, unicodedata
+sys.path.insert(0, REPO)
+from mistletoe.core_tokens import normalize_label
+bad = []
+n = 0
+SPEC_WS = [chr(c) for c in range(sys.maxunicode + 1) if unicodedata.category(chr(c)) == 'Zs'] + ['\t', '\n', '\x0c', '\r']
+for cp in range(sys.maxunicode + 1):
+    c = chr(cp)
+    if 0xD800 <= cp <= 0xDFFF or c.isspace():
+        continue
+    n += 1
+    got = normalize_label('x' + c + 'Y')
+    exp = 'x' + c.casefold() + 'y'
+    if got != exp and len(bad) < 6:
+        bad.append(['casefold', cp, got, exp])
+for w in SPEC_WS:
+    for t, exp in ((w + 'a' + w + w + 'B' + w, 'a b'), ('a' + w + 'b', 'a b'), (w, '')):
+        n += 1
+        got = normalize_label(t)
+        if got != exp and len(bad) < 12:
+            bad.append(['whitespace', ord(w), got, exp])
+print(json.dumps({'n': n, 'bad': bad}))
+'''
+
+
+def normalize_label_lemma(repo):
+    """C07: label matching is by Unicode case fold and whitespace collapse - normalize_label, run on the
+    real function for EVERY code point (finite domain: case folding is a per-character map) and for every
+    whitespace character of the specification (Zs, tab, LF, FF, CR) in leading, inner and trailing position."""
+    t0 = time.time()
+    p = subprocess.run(['/venv/bin/python', '-c', NORM_PROBE.replace('REPO', repr(repo))], capture_output=True, text=True)
+    ms = (time.time() - t0) * 1000
+    if p.returncode != 0:
+        return {'results': [mk('table:normalize_label', 'undecided', ms, ['C07'], detail='probe failed: ' + p.stderr[-300:],
+                               fn='mistletoe.core_tokens.normalize_label', kind='resolve')], 'sha': {}}
+    d = json.loads(p.stdout)
+    ok = not d['bad']
+    w = d['bad'][0] if d['bad'] else None
+    return {'results': [mk('table:normalize_label == casefold + whitespace collapse', 'proved' if ok else 'refuted', ms, ['C07'],
+                           fn='mistletoe.core_tokens.normalize_label',
+                           text='for every code point c: normalize_label("x" + c + "Y") == "x" + casefold(c) + "y"; every '
+                                'specification whitespace character is stripped at the ends and collapsed to one space inside '
+                                '(%d cases on the real function)' % d['n'],
+                           model=None if ok else {'kind': w[0], 'code_point': hex(w[1]), 'got': w[2], 'expected': w[3], 'more': d['bad'][1:4]},
+                           native=None if ok else {'reproduced': True, 'input': 'x' + chr(w[1]) + 'Y' if w[0] == 'casefold' else chr(w[1]),
+                                                   'observed': w[2], 'expected': w[3]})],
+            'sha': {}, 'assumptions': ['str.casefold of the interpreter is the Unicode case folding the specification names']}
+
+
 LEMMAS = {
+    'table:normalize_label': (normalize_label_lemma, ['C07']),
     'frame:cli-passthrough': (cli_passthrough_lemma, ['C15']),
     'frame:no-rebreak': (no_rebreak_lemma, ['C10']),
     'classes:structure': (class_lemmas, ['C18', 'C01', 'C11', 'C16']),
